@@ -342,8 +342,8 @@ func ruleDispatchTables(c *eng.Ctx) {
 	if fn := p.Func("core.(*XRefParser).ParseXRef"); fn == nil {
 		c.Undec(R, "core.(*XRefParser).ParseXRef", token.NoPos, "anchor not found")
 	} else {
-		s := len(eng.CallsNamed(fn, false, "core.(*XRefParser).parseXRefStream")) > 0
-		t := len(eng.CallsNamed(fn, false, "core.(*XRefParser).parseTraditionalXRef")) > 0
+		s := callsAnchor(c.P, fn, "core.(*XRefParser).parseXRefStream")
+		t := callsAnchor(c.P, fn, "core.(*XRefParser).parseTraditionalXRef")
 		c.Check(s && t, R, "core.(*XRefParser).ParseXRef#kinds", fn.Pos(), "classic tables and xref streams are both parsed", "one of the two cross-reference kinds is no longer reachable from ParseXRef")
 	}
 	if fd := p.Decl("text.(*Extractor).RegisterFontsFromResources"); fd == nil {
@@ -407,8 +407,8 @@ func ruleDispatchTables(c *eng.Ctx) {
 	if fn := p.Func("reader.(*Reader).GetObject"); fn == nil {
 		c.Undec(R, "reader.(*Reader).GetObject", token.NoPos, "anchor not found")
 	} else {
-		a := len(eng.CallsNamed(fn, false, "reader.(*Reader).getCompressedObject")) > 0
-		b := len(eng.CallsNamed(fn, false, "reader.(*Reader).getUncompressedObject")) > 0
+		a := callsAnchor(c.P, fn, "reader.(*Reader).getCompressedObject")
+		b := callsAnchor(c.P, fn, "reader.(*Reader).getUncompressedObject")
 		c.Check(a && b, R, "reader.(*Reader).GetObject#entry-kinds", fn.Pos(), "plain and object-stream entries are both loaded", "one of the two in-use entry kinds is no longer loaded by GetObject")
 	}
 	// content streams: single stream and array
@@ -457,4 +457,18 @@ func rulePageOrder(c *eng.Ctx) {
 		}
 	}
 	c.Check(okApp, R, "pages.(*PageTree).traversePageNode#append", fn.Pos(), "leaves are appended to the running page list", "page leaves are not appended to the end of the running list (order or count changes)")
+}
+
+// callsAnchor: fn calls the anchored function, whichever way it is currently written (method or plain function).
+func callsAnchor(p *eng.Prog, fn *ssa.Function, name string) bool {
+	target := p.Func(name)
+	if target == nil {
+		return false
+	}
+	for _, ci := range eng.Calls(fn, false, func(string, ssa.CallInstruction) bool { return true }) {
+		if ci.Common().StaticCallee() == target {
+			return true
+		}
+	}
+	return false
 }
